@@ -3,6 +3,7 @@ from __future__ import annotations
 from ..runner import Stage
 from .. import siminv as SI, invmon as IM
 from . import sensorprop as SP
+from .c15 import stage_caps_correspondence
 
 SPEC = dict(
     level='proof',
@@ -11,6 +12,9 @@ SPEC = dict(
              'this run): every register read by every sensor -- Calculated getters and both words of the two-word bitmaps included -- lies '
              'inside the window of the command that fetches its table, for ET running / battery / battery 2 / meter extended-2 / extended / '
              'basic (with the corresponding filter) / MPPT and DT running / meter; model variants only filter these lists; a sensor inside '
+             'the window gets all its bytes from a full-length answer; C14_meter_window_always_covers: in EVERY capability state reachable through any history of '
+             'read_runtime_data calls (any refusals, any request lost at any point, exception paths included; capability model Model/ETCaps.v, compared '
+             'with the real class on every run incl. lost requests) the meter window requested next covers the meter sensors decoded from it; '
              'the window gets all its bytes from a full-length answer.  KNOWN FINDING excluded by name and shown by C14_mppt_refuted: ET '
              'apparent_power2 / apparent_power3.  The pairing of command and list in every reachable capability state is checked at run time: '
              'the real ET / DT classes decode answers of the simulated inverter for all refusal subsets (quick: each subset once + every '
@@ -18,8 +22,8 @@ SPEC = dict(
         note='The complete enumeration (7 serial classes x 5 power classes x 128 refusal subsets x battery present/absent) runs in the thorough tier.',
         technique='Coq proof over generated tables (vm_compute, forallb) + run-time short-read monitor over the configuration space',
         design_ref='DESIGN.md section 5 (C14)'),
-    stages=[SP.inv_stage('window-monitor', lambda st, ctx, g: IM.mon_runtime(st, ctx, g, want=('C14',)))],
-    theorems=['C14_windows_partial', 'C14_mppt_refuted', 'C14_variants_are_sublists', 'C14_no_short_read'],
+    stages=[stage_caps_correspondence, SP.inv_stage('window-monitor', lambda st, ctx, g: IM.mon_runtime(st, ctx, g, want=('C14',)))],
+    theorems=['C14_windows_partial', 'C14_mppt_refuted', 'C14_variants_are_sublists', 'C14_no_short_read', 'C14_meter_window_always_covers'],
     rule='configurations: ET serial class x rated power x refused optional blocks x battery_mode (thorough: complete product), DT models x meter refused',
     trusted_base=SP.TB_SENS,
     exhaustive=True,
